@@ -248,6 +248,26 @@ pub fn run(dir: &str, prefix: &str) {
                         op["rem"] = json!(rem);
                     }
                 }
+                "proof" => {
+                    // a read-only query: no effect on the mirror; the siblings are nodes of the root computation
+                    let mut o = json!({"ev": "proof", "inst": inst.small, "be": e["be"], "hk": if inst.hk { 1 } else { 0 }, "res": res,
+                                       "op": {"c": "proof", "i": e["i"]}, "seq": e["seq"]});
+                    if res == "ok" {
+                        o["len"] = e["len"].clone();
+                        o["idx"] = e["idx"].clone();
+                        o["bits"] = e["bits"].clone();
+                        o["sib"] = json!(e["sib"].as_array().cloned().unwrap_or_default().iter().map(|v| c.vid(v.as_str().unwrap_or(""), &z)).collect::<Vec<_>>());
+                    }
+                    if e.get("post").is_none() && res != "panic" {
+                        o["root"] = json!(c.vid(e["root"].as_str().unwrap_or(""), &z));
+                        o["next"] = e["next"].clone();
+                        o["d"] = e["d"].clone();
+                    } else {
+                        o["nopost"] = json!(1);
+                    }
+                    c.out.push(o);
+                    continue;
+                }
                 _ => continue,
             }
             // ---- mirror of the ideal leaf map (only to know which hash facts will be asked for)
